@@ -40,6 +40,8 @@ func (q *Quote) left() int {
 }
 
 func (q *Quote) setLeft(left int) {
+	// The quoted child moves along.
+	q.child.setLeft(q.child.left() + left - q.x)
 	q.x = left
 }
 
